@@ -8,7 +8,7 @@ import pydlsa.roles as roles
 roles._REF = {}          # do not apply an older reference while generating
 from pydlsa.loader import Repo
 from pydlsa.cli import evaluate
-from pydlsa.roles import signatures
+from pydlsa.roles import signatures, commutative_texts
 import ast
 
 repo = Repo('/repo')
@@ -36,5 +36,10 @@ for rel, m in sorted(repo.modules.items()):
         sig = signatures(orig)
         if sig:
             out['%s:%s' % (rel, q)] = sig
+        import hashlib
+        out['%s:%s#digest' % (rel, q)] = hashlib.sha256(ast.dump(f.node, include_attributes=False).encode()).hexdigest()[:16]
+        ct = commutative_texts(orig)
+        if ct:
+            out['%s:%s#commutative' % (rel, q)] = ct
 json.dump(out, open(os.path.join(HERE, 'pydlsa', 'role_ref.json'), 'w'), indent=0)
 print('role_ref.json: %d functions, %d locals' % (len(out), sum(len(v) for v in out.values())))
